@@ -10,7 +10,7 @@ import os
 from lib import vf
 
 SYMS_ALL = ["id", "mut", "ref", "at", "raw", "fnname", "fnname_", "rawfn", "gnext", "gprev", "ugnext", "ugprev",
-            "wild", "tup2", "tup0", "ts1", "ts1w", "st1", "sts", "refp", "tsu", "nest2", "liftfn", "liftfn_", "tsmut", "stref", "tsat"]
+            "wild", "tup2", "tup0", "ts1", "ts1w", "st1", "sts", "refp", "tsu", "nest2", "liftfn", "liftfn_", "tsmut", "stref", "tsat", "tsraw"]
 
 PRELUDE = """
 pub struct N(pub i32);
